@@ -25,54 +25,71 @@ func isSOFMarker(m byte) bool {
 	return (m >= 0xC0 && m <= 0xCF && m != 0xC4 && m != 0xC8 && m != 0xCC) || m == 0xF7
 }
 
-// SniffJPEG walks a T.81/T.87 marker stream.
+// SniffJPEG is the Go twin of frame_declared (coq/Parsers/PrsOutcome.v): the first frame header
+// of ANY kind (SOF0-3, 5-7, 9-11, 13-15, SOF55) met by a marker loop that skips other segments
+// by their length and stops at SOS, EOI or when no marker can be read.
 func SniffJPEG(b []byte) Declared {
 	var d Declared
-	if len(b) < 2 || b[0] != 0xFF || b[1] != 0xD8 {
-		return d
-	}
-	i := 2
-	for i < len(b) {
-		if b[i] != 0xFF {
-			return d
+	readMarker := func(i int) (m byte, next int, ok bool) {
+		if i >= len(b) || b[i] != 0xFF {
+			return 0, 0, false
 		}
+		i++
 		for i < len(b) && b[i] == 0xFF {
 			i++
 		}
-		if i >= len(b) {
+		if i >= len(b) || b[i] == 0x00 {
+			return 0, 0, false
+		}
+		return b[i], i + 1, true
+	}
+	m, i, ok := readMarker(0)
+	if !ok || m != 0xD8 {
+		return d
+	}
+	for {
+		m, j, ok := readMarker(i)
+		if !ok {
 			return d
 		}
-		m := b[i]
-		i++
-		if m == 0x00 {
-			return d
+		r := b[j:]
+		segLen := func() int { // payload length by the length field alone (negative counts as 0)
+			n := int(r[0])<<8 | int(r[1]) - 2
+			if n < 0 {
+				n = 0
+			}
+			return n
 		}
-		if m == 0xD8 || m == 0xD9 || (m >= 0xD0 && m <= 0xD7) {
-			if m == 0xD9 {
+		switch {
+		case isSOFMarker(m):
+			if len(r) < 2 {
 				return d
 			}
-			continue
-		}
-		if i+2 > len(b) {
+			p := r[2:]
+			if n := segLen(); n < len(p) {
+				p = p[:n]
+			}
+			if len(p) < 6 {
+				return d
+			}
+			d.Found, d.Kind, d.Prec = true, "sof", int(p[0])
+			d.H, d.W, d.C = uint64(p[1])<<8|uint64(p[2]), uint64(p[3])<<8|uint64(p[4]), uint64(p[5])
 			return d
-		}
-		l := int(b[i])<<8 | int(b[i+1])
-		// a (possibly truncated) frame header declares its size as soon as P,Y,X,Nf are present
-		if isSOFMarker(m) && l >= 8 && i+8 <= len(b) {
-			d.Found, d.Kind, d.Prec = true, "sof", int(b[i+2])
-			d.H, d.W, d.C = uint64(b[i+3])<<8|uint64(b[i+4]), uint64(b[i+5])<<8|uint64(b[i+6]), uint64(b[i+7])
-			return d // first frame header: done (HdrEnd is computed by hdrEndJPEG)
-		}
-		if l < 2 || i+l > len(b) {
+		case m == 0xDA || m == 0xD9:
 			return d
-		}
-		i += l
-		if m == 0xDA {
-			d.HdrEnd = i
-			return d
+		case m == 0xD8 || (m >= 0xD0 && m <= 0xD7): // no length
+			i = j
+		default:
+			if len(r) < 2 {
+				return d
+			}
+			n := segLen()
+			if n > len(r)-2 {
+				n = len(r) - 2
+			}
+			i = j + 2 + n
 		}
 	}
-	return d
 }
 
 func be32(b []byte) uint64 {
